@@ -290,6 +290,66 @@ func (g *G) Dense() *graph.DenseGraph {
 	return &graph.DenseGraph{NumberOfVertices: g.N, NumberOfEdges: g.M(), DegreeSequence: g.Degrees(), Edges: g.EdgeBytes()}
 }
 
+// DenseVariant builds a *graph.DenseGraph that represents the same graph as Dense() but differs in everything the
+// documentation leaves open: k = 0 is Dense(); for k > 0 every edge byte is some value in 1..255 (NewDense and all
+// observers treat any byte > 0 as an edge) and the Edges / DegreeSequence slices have spare capacity filled with
+// non-zero garbage (AddVertex is documented to reuse spare capacity).
+func (g *G) DenseVariant(k int) *graph.DenseGraph {
+	if k == 0 {
+		return g.Dense()
+	}
+	eb := g.EdgeBytes()
+	spare := 3 + (k*7+g.N)%11
+	edges := make([]byte, len(eb), len(eb)+spare*(g.N+2))
+	h := uint32(k)*2654435761 + 12345
+	for i, b := range eb {
+		if b != 0 {
+			h = h*1664525 + 1013904223
+			edges[i] = byte(1 + (h>>16)%255)
+		}
+	}
+	full := edges[:cap(edges)]
+	for i := len(edges); i < len(full); i++ {
+		full[i] = 0xA5
+	}
+	deg := g.Degrees()
+	ds := make([]int, len(deg), len(deg)+spare)
+	copy(ds, deg)
+	fd := ds[:cap(ds)]
+	for i := len(ds); i < len(fd); i++ {
+		fd[i] = -7
+	}
+	return &graph.DenseGraph{NumberOfVertices: g.N, NumberOfEdges: g.M(), DegreeSequence: ds, Edges: edges}
+}
+
+// SparseVariant is Sparse() with spare capacity (filled with garbage) behind every neighbourhood and behind the
+// slices of the struct for k > 0.
+func (g *G) SparseVariant(k int) *graph.SparseGraph {
+	if k == 0 {
+		return g.Sparse()
+	}
+	spare := 2 + (k*5+g.N)%7
+	nb := make([]sortints.SortedInts, g.N, g.N+spare)
+	for v := range nb {
+		l := g.Nbrs(v)
+		x := make([]int, len(l), len(l)+spare)
+		copy(x, l)
+		fx := x[:cap(x)]
+		for i := len(x); i < len(fx); i++ {
+			fx[i] = -3
+		}
+		nb[v] = sortints.SortedInts(x)
+	}
+	deg := g.Degrees()
+	ds := make([]int, len(deg), len(deg)+spare)
+	copy(ds, deg)
+	fd := ds[:cap(ds)]
+	for i := len(ds); i < len(fd); i++ {
+		fd[i] = -7
+	}
+	return &graph.SparseGraph{NumberOfVertices: g.N, NumberOfEdges: g.M(), Neighbourhoods: nb, DegreeSequence: ds}
+}
+
 // Sparse builds a *graph.SparseGraph by filling the exported fields directly.
 func (g *G) Sparse() *graph.SparseGraph {
 	nb := make([]sortints.SortedInts, g.N)
